@@ -7,7 +7,7 @@ from props import c01, c08
 from props import c07_fn
 
 ID = 'C07'
-LEAN_MODULES = ['PybtexModel.Props.C07', 'PybtexModel.Props.C07x']
+LEAN_MODULES = ['PybtexModel.Props.C07', 'PybtexModel.Props.C07x', 'PybtexModel.Props.C07y']
 THEOREMS = {
     'C07_one_per_citation': "RELATIVE TO THE C05 RESOLUTION (resolvedKeys / resolvedEntries = the model's own addExtraCitations + drop-missing prefix of format_bibliography, characterised separately by the C05 theorems): sort, label and template neither drop nor duplicate an entry (formatted keys = a permutation of the resolved entries' keys, same number); independent part: every resolved key denotes its stored entry",
     'C07_no_duplicates': 'for well-formed entries no two formatted entries have the same key up to case (from C05_no_dup)',
@@ -43,6 +43,14 @@ THEOREMS = {
     'C07_shipped_required_nonvacuous': 'non-vacuity: the article example entry gets articleTemplate, its required list, 17 types, article is a terminatingEntry, incollection is not',
     'C07_shipped_types': 'the model has a template for exactly the entry types that have a get_<type>_template method in /repo (Gen.pyStyleTypes, regenerated); the message of the BibliographyDataError for other types is composed from the regenerated pieces [table tie; the message conjunct is ONE kernel-evaluated instance (webpage / k1) built from the regenerated pieces]',
     'C07_style_configuration': "BaseStyle.__init__ on the regenerated class attributes / group defaults: unsrt = plain names, number labels, citation order; plain = author_year_title; alpha = alpha labels + author_year_title; unsrtalpha = alpha labels + citation order; explicitly given label / name / sorting style and abbreviate_names always win (all 4 x 2 x 2 x 2 x 2 combinations)",
+    'C07_spine_names_shown': "lift of C07_person_words_shown, evaluator level, any template: hypotheses - the context's name templates are personTemplatesOf st dec abbr roles (shipped name style st), eval fuel ctx t = ok r (any fuel), a names node for the role is on the spine of t (onSpine, Lemmas/NamesSpine.lean: reached through join / together / tag / href children / sentence without capfirst, capitalize; never through optional / first_of); conclusion - the first of roles whose name equals the role up to case exists, and for every person of it every word w parses (Text.from_latex) to x and str(r) contains str(x) contiguously (von / last / lineage; first / middle without abbr) resp. str(x.abbreviate()) (first / middle with abbr); the fuel left at the names node is derived from the successful evaluation, not assumed. NOT proved: names nodes under optional / first_of",
+    'C07_spine_names_shown_nonvacuous': "non-vacuity: the article template over the name templates the plain style builds for 'de Sartre, Jr, Jean-Paul' and 'A Abel' evaluates (fuel 20) to 'J.-P. de<nbsp>Sartre, Jr and A.<nbsp>Abel.<newblock>T.<newblock>J, 2001.'; author is on the spine",
+    'C07_entry_names_shown': "whole entries of the fully modelled run: hypotheses - keys of the database pairwise distinct, formatBibliographyShipped cfg dec es cites mc = some (rep, ok fs); conclusion - every formatted f belongs to an entry e of es with the same key, and for every template t = getTemplate e and role with onSpine role t the role is present in e.roles (first match up to case) and every word of every person of it (or its abbreviate() for first / middle names when cfg.abbr) occurs contiguously in str(f.text); both name styles, all label / sorting styles. Which shipped templates qualify: C07_shipped_spine. NOT proved: roles whose names node is under optional / first_of (book, inbook, manual, misc, dataset, online, patent, software; editor of incollection / inproceedings)",
+    'C07_entry_names_shown_nonvacuous': "non-vacuity: a one-article database (authors 'de Sartre, Jr, Jean-Paul', 'A Abel'): distinct keys, article template, author on the spine, role found, and the shipped run gives 'J.-P. de<nbsp>Sartre, Jr and A.<nbsp>Abel.<newblock>T.<newblock>J, 2001.' (plain names, abbreviate_names) resp. label dSA01, 'de<nbsp>Sartre, Jr, Jean-Paul and Abel, A.<newblock>...' (lastfirst, alpha labels, sorted)",
+    'C07_shipped_spine': "finite table, by evaluation of onSpine on the model templates for both values of the two entry facts the templates read (has editor, more than one editor): the author node of article, booklet, incollection, inproceedings, mastersthesis, phdthesis, techreport, unpublished is on the spine for EVERY entry of the type (hypothesis: getTemplate e = some t); the editor node of a proceedings entry that has an editor is on the spine",
+    'C07_shipped_spine_nonvacuous': "the notion is not trivially true: onSpine is false for the author / editor of book (first_of) and the author of misc (optional), true for the editor of proceedings with editors; spineAlways has 8 pairs",
+    'C07_shipped_names_shown': "C07_entry_names_shown composed with C07_shipped_spine, no template in the statement: hypotheses - distinct keys, the shipped run succeeds with fs; conclusion - every f of fs comes from an entry e of the same key, and if e is an article, booklet, incollection, inproceedings, mastersthesis, phdthesis, techreport or unpublished entry it has an author role and every word of every author (or its initials form abbreviate() for first / middle names under abbreviate_names) occurs contiguously in str(f.text); likewise the editors of a proceedings entry that has an editor. NOT proved: the other nine entry types and the editor of incollection / inproceedings (names under optional / first_of); non-vacuity: C07_entry_names_shown_nonvacuous (an article)",
+    'C07_shipped_names_shown_nonvacuous': "non-vacuity: (article, author) is in the table, the one-article database of C07_entry_names_shown_nonvacuous is an article, and its shipped run (plain names, abbreviate_names) succeeds with formatted entries",
     'C07_shipped_pipeline': "[model wiring] formatBibliographyShipped (when defined: every name word parses) is formatBibliography on the model's own items (templates of Model/UnsrtStyle, name templates of Model/NameStyle), citations None = the keys of the database in order: every C07 theorem stated for arbitrary items applies to it",
     'C07_alpha_base_label': 'alpha base labels (format_label): end with year[-2:] when the entry has a year; the part made from persons (format_lab_names) consists of ASCII letters, digits and + only; for ordinary entry types with authors the base label is format_lab_names(authors) + year suffix',
 }
